@@ -51,6 +51,13 @@ Theorem C02_query_fragment_irrelevant : forall fs u1 u2 hs P,
 Proof. exact same_path_same_answer. Qed.
 Theorem C02_reparse_clean : forall P, clean_path P -> path_or_panic P = SOk P.
 Proof. exact reparse_clean. Qed.
+(* the listed finding C02-F4, as a fact about the model of the vendored URL parser: with a '#' before the first '?' the path keeps the
+   fragment ("/a.txt#f?x" has the path "/a.txt#f"), and parsing that path again drops it ("/a.txt") - so the theorems above, which ask
+   for a clean path, say nothing about such targets, and the oracle judges them by RFC 3986 *)
+Theorem C02_F4_witness :
+  path_or_panic [47;97;46;116;120;116;35;102;63;120] = SOk [47;97;46;116;120;116;35;102] /\
+  path_or_panic [47;97;46;116;120;116;35;102] = SOk [47;97;46;116;120;116].
+Proof. split; vm_compute; reflexivity. Qed.
 
 (* the media type: a function of the extension alone, equal to the frozen reference table (89 extensions, IANA / MDN as adopted by rws) for
    every directory and every stem; any other extension gets the default.  The chain is regenerated from /repo on every run. *)
